@@ -231,7 +231,10 @@ pub fn run(ctx: &Ctx) -> Report {
             acc
         })
         .reduce(Acc::default, |a, b| a.merge(b));
-    let acc = acc1.merge(acc2).merge(acc_many).merge(acc_direct);
+    let mut acc = acc1.merge(acc2).merge(acc_many).merge(acc_direct);
+    // the parser family (which polices every accepted buffer) under per-call-site tracing filters and under
+    // subscribers that panic at one call site (callsites.rs)
+    crate::teardown::callsite_sweep(P, "parser", &mut acc);
     Report {
         acc,
         exhaustive: true,
